@@ -227,6 +227,90 @@ def c17_jobs(tier):
     return js + lemmas()
 
 
+# ---------------------------------------------------------------- C03 / C04 / C05 / C11 (mutating commands)
+A_C03 = ["original-lines-survive-unchanged", "entry-inserted-after-the-records-last-line", "one-line-per-entry-line",
+         "other-lines-survive-byte-for-byte", "final-line-only-gains-a-line-ending", "text-before-placeholder-kept",
+         "value-line-ending-kept", "no-line-removed", "switch-adds-one-entry-line", "stop-adds-no-line",
+         "only-the-record-lines-are-added", "one-separating-blank-line", "extend-adds-no-line",
+         "pause-entry-inserted-after-the-records-last-line", "noop-reconcile-writes-identical-text", "noop-result-valid", "record-found"]
+A_C04 = ["record-count", "record-date-in-file-order", "record-should-total", "record-summary-line-count", "record-summary-text",
+         "entry-count", "entry-kind-and-value", "entry-summary-line-count", "entry-summary-text",
+         "start-fails-iff-record-already-has-open-range", "stop-succeeds-iff-open-range-and-end-not-before-start",
+         "pause-runs-iff-open-range-present", "pause-reports-error", "create-succeeds", "command-succeeds-iff-model-accepts"]
+A_C05 = ["failed-command-leaves-file-untouched", "written-file-is-valid", "track-succeeds-iff-entry-is-valid",
+         "command-on-invalid-file-fails", "switch-with-failing-second-step-fails", "failure-has-nonzero-exit-code"]
+A_C11 = ["inserted-line-uses-record-or-file-indentation", "inserted-line-uses-file-line-ending", "repeat-same-outcome",
+         "repeat-yields-identical-bytes", "unanimous-indentation-is-used", "unanimous-line-ending-is-used", "track-on-new-date-succeeds"]
+
+
+def mut(h, L, f, r, **kw):
+    kw.setdefault("nd", 6)
+    if h == "ZZ_Mut_Stop":
+        kw.setdefault("needOpen", 1 if L >= 3 else 0)
+    return job(h, C, L=L, fmt=f, rot=r, **kw)
+
+
+def c03_jobs(tier):
+    q = tier == "quick"
+    js = []
+    for L in ([1, 2] if q else [1, 2, 3]):
+        for f, r in (FMT_ROT_QUICK if L < 3 else [(0, 1), (2, 3)]):
+            js.append(mut("ZZ_Mut_Track", L, f, r))
+    js += [mut("ZZ_Mut_Create", 2, 1, 0)]
+    js += [mut("ZZ_Mut_Stop", 2, 2, 3, sw=0), mut("ZZ_Mut_Stop", 3, 0, 1, sw=0, nd=2), mut("ZZ_Mut_Stop", 3, 1, 2, sw=1, nd=2)]
+    js += [mut("ZZ_Mut_Pause", 2, 0, 0, ticks=1, extend=0)]
+    if not q:
+        js += [mut("ZZ_Mut_Start", 2, f, r) for f, r in FMT_ROT_QUICK]
+        js += [mut("ZZ_Mut_Pause", 3, 2, 2, ticks=1, extend=1), mut("ZZ_Mut_Create", 3, 0, 2), mut("ZZ_Mut_Create", 2, 2, 3),
+               mut("ZZ_Mut_Stop", 3, 2, 0, sw=0), mut("ZZ_Mut_Stop", 3, 0, 3, sw=1)]
+    for L in range(1, (3 if q else 4) + 1):
+        js.append(job("ZZ_C08_NoopReconcile", U, L=L, fmt=L % 3, rot=L % 4))
+    return js
+
+
+def c04_jobs(tier):
+    q = tier == "quick"
+    js = [mut("ZZ_Mut_Start", 2, 0, 2, nd=3), mut("ZZ_Mut_Stop", 3, 1, 0, sw=0, nd=2), mut("ZZ_Mut_Stop", 3, 2, 1, sw=1, nd=2),
+          mut("ZZ_Mut_Track", 2, 1, 1), mut("ZZ_Mut_Create", 2, 0, 3),
+          mut("ZZ_Mut_Pause", 2, 1, 1, ticks=2, extend=0), mut("ZZ_Mut_Pause", 2, 0, 2, ticks=1, extend=0),
+          mut("ZZ_Mut_History", 2, 1, 1, steps=2, nd=2), mut("ZZ_Mut_History", 1, 0, 0, steps=3)]
+    if not q:
+        js += [mut("ZZ_Mut_Pause", 3, 2, 2, ticks=1, extend=1), mut("ZZ_Mut_Pause", 2, 0, 1, ticks=3, extend=0),
+               mut("ZZ_Mut_History", 2, 0, 3, steps=3), mut("ZZ_Mut_History", 1, 2, 0, steps=4), mut("ZZ_Mut_Track", 3, 0, 1),
+               mut("ZZ_Mut_Create", 3, 1, 2), mut("ZZ_Mut_Start", 2, 1, 3), mut("ZZ_Mut_Stop", 3, 0, 2, sw=0), mut("ZZ_Mut_Stop", 3, 1, 3, sw=1)]
+    return js
+
+
+def c05_jobs(tier):
+    q = tier == "quick"
+    js = []
+    for L in ([1, 2, 3] if q else [1, 2, 3, 4]):
+        js.append(mut("ZZ_Mut_InvalidTarget", L, L % 3, L % 4))
+    js += [mut("ZZ_Mut_Track", 2, 0, 0), mut("ZZ_Mut_Stop", 2, 1, 1, sw=0), mut("ZZ_Mut_Stop", 3, 2, 2, sw=1, nd=2),
+           mut("ZZ_Mut_Pause", 2, 2, 3, ticks=1, extend=0), mut("ZZ_Mut_Create", 2, 1, 2)]
+    if not q:
+        js += [mut("ZZ_Mut_Start", 2, 1, 3), mut("ZZ_Mut_Track", 3, 2, 2), mut("ZZ_Mut_History", 2, 2, 2, steps=3)]
+    return js
+
+
+def c11_jobs(tier):
+    q = tier == "quick"
+    js = [job("ZZ_C11_Election", C)]
+    for f, r in (FMT_ROT_QUICK if q else FMT_ROT_ALL):
+        js.append(mut("ZZ_Mut_Track", 2, f, r))
+    js += [mut("ZZ_Mut_Create", 2, 0, 1), mut("ZZ_Mut_Start", 2, 1, 0 if q else 3, nd=3 if q else 6)]
+    if not q:
+        js += [mut("ZZ_Mut_Track", 3, 1, 3), mut("ZZ_Mut_Start", 2, 2, 1), mut("ZZ_Mut_Create", 3, 2, 0)]
+    return js
+
+
+MUT_STUBS = [MODELS["regexp"], MODELS["fmt"], MODELS["utf8"], MODELS["builder"], MODELS["bytealg"],
+             "app.Context: harness implementation (zzContext) that holds the target file as text and mirrors app.context.ReconcileFile (parse -> ApplyReconciler -> write only on success)",
+             "time.NewTicker/signal.Notify: a tick is always ready; the harness scripts the clock and cuts the endless pause loop after k ticks",
+             "map iteration order: all permutations are explored inside the determinism checks"]
+MUT_ASSUME = COMMON_ASSUME + ["initial files come from the document generator (all conforming kind sequences of L lines with rotating indentation styles, LF/CRLF/missing final newline); the clock's date is one of 6 dates (three record dates, one before, between and after them)",
+                              "explicit --time values have a symbolic hour and minute 05 or 50; every minute is covered by C16/C17"]
+
 CHECKS = {
     "C16": {
         "jobs": c16_jobs,
@@ -306,6 +390,34 @@ CHECKS = {
         "outside": "longer documents; summaries containing a carriage return (known defect F8, see DESIGN) and invalid UTF-8",
         "stubs": [MODELS["regexp"], MODELS["fmt"], MODELS["utf8"], MODELS["builder"]],
         "assumptions": COMMON_ASSUME,
+    },
+    "C03": {
+        "jobs": c03_jobs, "asserts": A_C03,
+        "bounds": {"quick": "initial files: every conforming 1-2 line document (3-line documents for stop/switch); commands track (3 entry texts incl. two-line summary), create (3 variants), stop/switch (symbolic time, optional summary), pause (one tick, symbolic minutes); no-op reconcile on 1-3 line documents",
+                   "thorough": "3-line documents for track/create, start, pause --extend"},
+        "outside": "longer files (the splice arithmetic is exercised on every kind sequence up to the bound, not on all file lengths); parameters other than those listed",
+        "stubs": MUT_STUBS, "assumptions": MUT_ASSUME,
+    },
+    "C04": {
+        "jobs": c04_jobs, "asserts": A_C04,
+        "bounds": {"quick": "one inductive step of every command from every conforming 2-3 line file (the file is the only state and is re-parsed by every command), pause for 1 tick with symbolic minutes and 3 ticks with increments {0,1,59,61}, histories of 2-3 commands (track/start/stop) where each output feeds the next",
+                   "thorough": "histories of 3-4 commands, pause --extend, 3-line files for track/create"},
+        "outside": "longer histories (covered by the inductive step only), --resume/--resume-nth summaries, switch --summary variants",
+        "stubs": MUT_STUBS, "assumptions": MUT_ASSUME + ["the abstract model is the generator's denotation of the file (records as lists of (kind, values, summary)), advanced per command in the harness"],
+    },
+    "C05": {
+        "jobs": c05_jobs, "asserts": A_C05,
+        "bounds": {"quick": "every generated 1-3 line file with an injected rule violation x {track,start,stop,create,switch}; switch whose second step fails; track with non-entry text; stop/pause without open range or with end before start",
+                   "thorough": "4-line invalid files; histories"},
+        "outside": "the process exit status itself (main.Run goes through kong / errors.As: reflection, not encodable; Error.Code() of the returned error is checked); real file-system failures",
+        "stubs": MUT_STUBS, "assumptions": MUT_ASSUME,
+    },
+    "C11": {
+        "jobs": c11_jobs, "asserts": A_C11,
+        "bounds": {"quick": "style election over 2-3 records with every combination of {4 spaces, 2 spaces, tab} x {LF, CRLF} incl. all ties, run twice under every map iteration order; track/create/start on every conforming 2-line file with 3 formatting combinations",
+                   "thorough": "all 12 line-ending x indentation-rotation combinations, 3-line files"},
+        "outside": "date separator / clock convention / dash spacing / placeholder length of generated values (only indentation, line ending, validity and determinism are asserted); configured preferences",
+        "stubs": MUT_STUBS, "assumptions": MUT_ASSUME,
     },
     "C07": {
         "jobs": c07_jobs,
